@@ -208,6 +208,25 @@ fn eval(name: &str, a: &[Value]) -> Value {
             }
         }
         "execute_all" => crate::exec::execute_all(&a[0]),
+        // [line, "ascii"|"unicode", probe bytes]
+        "expectation_roundtrip" => {
+            let maker = scrut::expectation::ExpectationMaker::new(scrut::rules::registry::RuleRegistry::default());
+            let line = str_arg(&a[0]);
+            let esc = escaper(&a[1]);
+            let probe = bytes_arg(&a[2]);
+            match maker.parse(&line) {
+                Err(_) => json!({"original_parses": false}),
+                Ok(e1) => {
+                    let rendered = e1.to_expression_string(&esc);
+                    match maker.parse(&rendered) {
+                        Err(err) => json!({"original_parses": true, "rendered": rendered, "rendered_parses": false, "error": err.to_string()}),
+                        Ok(e2) => json!({"original_parses": true, "rendered": rendered, "rendered_parses": true,
+                            "flags_equal": e1.optional == e2.optional && e1.multiline == e2.multiline,
+                            "same_verdict": e1.matches(&probe) == e2.matches(&probe)}),
+                    }
+                }
+            }
+        }
         // render a TestCaseConfig as one-liner, put it on a scrut fence, parse the document back, compare
         "one_liner_roundtrip" => {
             use scrut::parsers::parser::Parser;
